@@ -36,8 +36,8 @@ def run(rep, tier):
     E = common.eff(rep)
     ix = E.ix
     positive_control(rep)
-    c13_1(rep, E, ix)
-    c13_2(rep, E, ix)
+    common.guarded(rep, "C13.1", c13_1, rep, E, ix)
+    common.guarded(rep, "C13.2", c13_2, rep, E, ix)
 
 
 def positive_control(rep):
